@@ -3,9 +3,10 @@ C07 — executable model of `/repo/hostsfile/record.go`: `cutField`, `cutStringF
 `(*Record).UnmarshalText` (both passes, as written) and `Record.MarshalText`.
 
 Parameters: `toASCII` (golang.org/x/net/idna.ToASCII, consumed by the C03 model of
-`netutil.ValidateDomainName`), `formatAddr` (`netip.Addr.MarshalText`, which is
-`Addr.String()` for every valid address; contract ADDR-RT).  `netip.ParseAddr` is the Lean
-model of `Go/Netip.lean`.
+`netutil.ValidateDomainName`), `formatAddr` (`netip.Addr.MarshalText`; the theorems and the
+driver instantiate it with the model `Netip.addrMarshalText` of `Go/NetipFmt.lean`, which is
+`Addr.String()` for every valid address and is proved to be inverted by the parser model —
+the former contract ADDR-RT).  `netip.ParseAddr` is the Lean model of `Go/Netip.lean`.
 
 `bytes.IndexAny`, `bytes.Trim`, `bytes.TrimLeft` (and their `strings` twins) are modelled
 byte-wise, which is what the Go functions do for an ASCII-only cutset (`gen/c07.go` checks
